@@ -37,10 +37,12 @@ CFG_STR = """SPECIFICATION Spec
 CONSTANTS
   MaxOps = %d
   Emit = TRUE
+  Idempotent = TRUE
 INVARIANT DetectOK
 INVARIANT ResolveOK
 INVARIANT ReplOK
 INVARIANT Unique
+INVARIANT RemovedGone
 INVARIANT EmitB
 CHECK_DEADLOCK FALSE
 """
@@ -56,7 +58,7 @@ def corpus_from_tlc(chk, maxtok):
 
 def registries_from_tlc(chk, maxops):
     r = chk.model_check("MC_StrTypes", CFG_STR % maxops,
-                        "registry state machine, <=%d register/disable operations: DetectOK ResolveOK ReplOK Unique" % maxops)
+                        "registry state machine, <=%d register (repeatable) / disable-by-name / remove-class operations: DetectOK ResolveOK ReplOK Unique RemovedGone" % maxops)
     acc = tlc.printed_tuples(r["out"], "ACC")
     table = json.loads(acc[0][1])
     for sid, names in table.items():
